@@ -6,6 +6,8 @@ import CfrVerif.Props.C07
 import CfrVerif.Proofs.Fuel
 import CfrVerif.Proofs.NoPanic
 import CfrVerif.Proofs.WellFormed
+import CfrVerif.Proofs.Locks
+--! audit CfrVerif/Proofs/Locks.lean
 /-!
 # C05 — every solve returns a well-formed strategy profile and never panics
 
@@ -26,6 +28,14 @@ overflow and NaN are outside the theorem and are sampled by the correspondence r
   no infoset occurs twice on a root-to-leaf path (the `RefCell::borrow_mut` held across the
   recursion in `recurse_single`), and one external-sampling pass visits an infoset of the updating
   player at most once (`try_lock().unwrap()`; theorem `active_infoset_visited_once` of C07).
+* "never … deadlocks": `Proofs/Locks.lean` (audited with this property) has the mutexes of the
+  multi-threaded external-sampling solver as an interleaving model (`Model/Locks.lean`: blocking
+  `lock()` for the draws, `try_lock().unwrap()` held across the recursion); on every accepted game,
+  in every configuration any thread schedule can reach, some worker can move unless all are done,
+  no `try_lock` finds its mutex held, every schedule has exactly as many steps as there are events,
+  and at the end every mutex is free (`external_pool_never_deadlocks`,
+  `external_workers_never_meet`).  The vanilla solvers use atomics and one blocking `lock()` per
+  chance draw with nothing acquired inside it.
 -/
 set_option linter.unusedSectionVars false
 namespace Cfr
